@@ -123,10 +123,12 @@ row(props=["C11"], func=TBS + "updateMethodCallsForSelfCall", params=["method", 
 CF = "pkg/adapter/cocafile."
 row(props=["C01", "C11"], func="var:" + CF + "isJavaTestFile", params=["path"], kind="returns", expr='hasSuffix(path, "Test.java") || hasSuffix(path, "Tests.java")', what="test file names")
 row(props=["C01", "C11"], func="var:" + CF + "isJavaTestPackage", params=["path"], kind="returns", expr='contains(toSlash(path), "src/test/java/")', what="Maven test tree")
+TESTNAME = '(hasSuffix(path, "Test.java") || hasSuffix(path, "Tests.java") || contains(toSlash(path), "src/test/java/"))'
 row(props=["C01", "C11"], func="var:" + CF + "JavaTestFileFilter", params=["path"], kind="returns",
-    expr='call("dyn", global("pkg/adapter/cocafile.isJavaTestFile"), path) || call("dyn", global("pkg/adapter/cocafile.isJavaTestPackage"), path)', what="test file ⇔ test name or test tree")
+    expr='hasSuffix(path, ".java") && ' + TESTNAME,
+    what="test file ⇔ a .java file with a test name or inside the Maven test tree (the directories of that tree are not files)")
 row(props=["C01", "C11"], func="var:" + CF + "JavaCodeFileFilter", params=["path"], kind="returns",
-    expr='hasSuffix(path, ".java") && !call("dyn", global("pkg/adapter/cocafile.JavaTestFileFilter"), path)', what="production file ⇔ .java and not a test file")
+    expr='hasSuffix(path, ".java") && !' + TESTNAME, what="production file ⇔ .java and not a test file")
 for g in ["isJavaTestFile", "isJavaTestPackage", "JavaTestFileFilter", "JavaCodeFileFilter"]:
     row(props=["C01", "C11"], kind="final", **{"global": CF + g}, value="", what="file filter %s is never reassigned" % g)
 
